@@ -141,9 +141,11 @@ class FilterStore(Store):
         get = BoundClass(FilterStoreGet)
 
     def _do_get(self, event: FilterStoreGet) -> bool:
-        for item in self.items:
+        for i, item in enumerate(self.items):
             if event.filter(item):
-                self.items.remove(item)
+                # Remove the matched element itself; list.remove() would remove
+                # the first element that compares equal to it.
+                del self.items[i]
                 event.succeed(item)
                 break
         return True
